@@ -29,7 +29,7 @@ theorem C05_two_step (U : Universe) (s : St) (e : Ent) :
 /-- Step two happens at the start of the next `process()`, before any processor runs: the log of
 a `process` call is the old log, then `on_remove` callbacks only, then processor (and on_update)
 calls only. -/
-theorem C05_applied_first (U : Universe) (s : St) (dt : String) :
+theorem C05_applied_first (U : Universe) [U.NoReenter] (s : St) (dt : String) :
     ∃ removals calls, (process U s dt).1.log = calls ++ removals ++ s.log ∧
       (∀ x ∈ removals, isLife x) ∧ (∀ x ∈ calls, isProc x ∨ isProbe x) := by
   unfold process
@@ -151,7 +151,7 @@ events — until `x` has lost all of its components. -/
 
 /-- the callback's own `delete_entity(x)` takes effect at once, whether the callback then returns or
 raises: `x` is awaiting deletion and does not exist for `entity_exists` / `entities` -/
-theorem C05_callback_delete_marks (U : Universe) (s : St) (o : Obj) (m : String) (en : Entry) (x : Ent)
+theorem C05_callback_delete_marks (U : Universe) [U.NoReenter] (s : St) (o : Obj) (m : String) (en : Entry) (x : Ent)
     (h : U.reacts o m ((Dict.get? s.calls (o, m)).getD 0) = some x) :
     x ∈ (callCb U s o m en).1.dead ∧ entityExists (callCb U s o m en).1 x = false ∧
     x ∉ entities (callCb U s o m en).1 ∧ ∀ e', row (callCb U s o m en).1 e' = row s e' := by
@@ -164,20 +164,20 @@ theorem C05_callback_delete_marks (U : Universe) (s : St) (o : Obj) (m : String)
 swept earlier in the same pass) is still there when the sweep ends — completed or cut short by an
 exception — unless that entity has no component left; in particular the sweep never wipes the
 marks made while it runs -/
-theorem C05_marks_survive_sweep (U : Universe) (s : St) (es : List Ent) (x : Ent) (hx : x ∈ s.dead) :
+theorem C05_marks_survive_sweep (U : Universe) [U.NoReenter] (s : St) (es : List Ent) (x : Ent) (hx : x ∈ s.dead) :
     x ∈ (sweep U s es).1.dead ∨ row (sweep U s es).1 x = [] :=
   (keep_sweep U s es).dead x hx
 
 /-- the same for the removal of one entity's components (immediate deletion, one sweep step) and
 for a single `remove_component` -/
-theorem C05_marks_survive_removal (U : Universe) (s : St) (e : Ent) (ts : List Ty) (t : Ty) (x : Ent)
+theorem C05_marks_survive_removal (U : Universe) [U.NoReenter] (s : St) (e : Ent) (ts : List Ty) (t : Ty) (x : Ent)
     (hx : x ∈ s.dead) :
     (x ∈ (removeTypes U s e ts).1.dead ∨ row (removeTypes U s e ts).1 x = []) ∧
     (x ∈ (removeComponent U s e t).1.dead ∨ row (removeComponent U s e t).1 x = []) :=
   ⟨(keep_removeTypes U s e ts).dead x hx, (keep_removeComponent U s e t).dead x hx⟩
 
 /-- processors and their `on_update` relays never unmark anything (and may mark more) -/
-theorem C05_marks_survive_processors (U : Universe) (s : St) (dt : String) (ps : List Obj) (x : Ent)
+theorem C05_marks_survive_processors (U : Universe) [U.NoReenter] (s : St) (dt : String) (ps : List Obj) (x : Ent)
     (hx : x ∈ s.dead) : x ∈ (runProcs U s dt ps).1.dead :=
   (runProcs_tables U s dt ps).deadMono x hx
 
@@ -186,7 +186,7 @@ private def exU : Universe :=
   { classes := [{ bases := [] }], mapping := fun _ => none, objTy := fun _ => some 0,
     raises := fun _ _ _ => none }
 
-instance : exU.Passive := ⟨fun _ _ _ => rfl⟩
+instance : exU.Passive := { noReenter := fun _ _ _ _ _ => rfl, noReact := fun _ _ _ => rfl }
 
 example : NoRaise exU ∧ GoodHist exU {} [.create none [0], .delete 1 false, .remove 1 0] ∧
     (process exU (run exU {} [.create none [0], .delete 1 false, .remove 1 0]) "1").2 = .ok ∧
